@@ -150,6 +150,106 @@ def zscores(vals, model, pos):
     return np.array(out)
 
 
+# ------------------------------------------------------------------ spectral sampling (variance-reduced search)
+SAMPLING_CONFIGS = [("Gaussian", {}), ("Exponential", {}), ("Matern", {}), ("Matern", {"nu": 0.3}), ("Matern", {"nu": 2.5}), ("Integral", {}),
+                    ("Stable", {}), ("Stable", {"alpha": 0.5}), ("Rational", {}), ("Rational", {"alpha": 0.5}), ("Cubic", {}), ("Linear", {}),
+                    ("Circular", {}), ("Spherical", {}), ("HyperSpherical", {}), ("SuperSpherical", {}), ("JBessel", {}),
+                    ("TPLGaussian", {}), ("TPLExponential", {}), ("TPLStable", {}), ("TPLSimple", {})]
+REL_LAGS = np.array([0.05, 0.25, 0.5, 1.0, 2.0])
+
+
+def sampling_bias(gs, model, N, M, seed0):
+    """By the theorem `cov_given_modes` the covariance of the randomization field given its wave vectors is EXACTLY
+    (var/N) sum_j cos<k_j, h>; so the only statistical question left is whether E_k[(1/N) sum_j cos<k_j, h>] = rho(h), i.e. whether the
+    wave vectors are drawn from the model's spectral density.  Averaging that conditional covariance over seeds removes the amplitude
+    noise: a far more powerful test than the field ensemble."""
+    from gstools.field.generator import RandMeth
+    lags = REL_LAGS * model.len_scale
+    acc = np.zeros((M, len(lags)))
+    for i in range(M):
+        g = RandMeth(model, mode_no=N, seed=int(seed0 + i))
+        acc[i] = np.mean(np.cos(np.outer(lags, g._cov_sample[0])), axis=1)     # lag along the first axis (isotropic model)
+    m = acc.mean(0)
+    se = acc.std(0, ddof=1) / np.sqrt(M) + 1e-300
+    d = m - model.correlation(lags)
+    return d, d / se
+
+
+def sampling_cfg_id(name, kw, dim, N):
+    par = "".join(f":{k}={v}" for k, v in sorted(kw.items()))
+    return f"{name}{par}:d{dim}:N{N}"
+
+
+def sampling_baseline():
+    """measured outcomes on the pristine tree (deterministic: fixed generator seeds), written by `vlib/c01_survey.py`;
+    used only to tell a known bias from one that got markedly worse"""
+    import json, os
+    p = os.path.join(os.path.dirname(os.path.dirname(os.path.abspath(__file__))), "c01_sampling_baseline.json")
+    try:
+        return json.load(open(p))
+    except Exception:
+        return {}
+
+
+def sampling_key(cfg, d, base):
+    i = int(np.argmax(np.abs(d)))
+    sign = "too-smooth" if d[i] > 0 else "too-rough"
+    key = f"spectral-sampling:{cfg}:{sign}"
+    b = base.get(cfg)
+    if b is not None and abs(float(d[i])) > 1.5 * abs(b) + 0.02:
+        key += ":worse-than-recorded"
+    return key
+
+
+def sampling_search(ctx, deep, only=None, record=None):
+    """The generator seeds are FIXED (7000..), so on a given tree every configuration has a reproducible outcome per tier;
+    ctx.seed only rotates which configurations the quick tier visits."""
+    import gstools as gs
+    rng = np.random.RandomState(ctx.seed + 4001)
+    allc = []
+    for name, kw in SAMPLING_CONFIGS:
+        for dim in (1, 2, 3):
+            for N in (64, 1000):
+                allc.append((name, kw, dim, N))
+    if only is not None:
+        todo = only
+    elif ctx.quick and not deep:
+        todo = [("Exponential", {}, 3, 64), ("Spherical", {}, 3, 1000), ("Gaussian", {}, 3, 64), ("Exponential", {}, 2, 64)]
+        idx = rng.permutation(len(allc))[:3]
+        todo += [allc[i] for i in idx]
+    else:
+        todo = allc
+    base = sampling_baseline().get("quick" if ctx.quick else "thorough", {})
+    viol, ev = [], 0
+    with warnings.catch_warnings():
+        warnings.simplefilter("ignore")
+        for name, kw, dim, N in todo:
+            try:
+                with warnings.catch_warnings():
+                    warnings.simplefilter("error")
+                    try:
+                        model = getattr(gs, name)(dim=dim, len_scale=2.0, **kw)
+                    except Warning:      # dimension not valid for this class
+                        continue
+            except Exception:
+                continue
+            M = (60 if N <= 64 else 24) if ctx.quick else (200 if N <= 64 else 60)
+            d, z = sampling_bias(gs, model, N, M, 7000)
+            ev += M
+            cfg = sampling_cfg_id(name, kw, dim, N)
+            bad = (np.abs(z) > 6.0) & (np.abs(d) > 0.02)
+            if record is not None:
+                i = int(np.argmax(np.abs(d)))
+                record[cfg] = dict(d=float(d[i]), z=float(z[i]), flagged=bool(bad.any()), diff=d.tolist(), zs=z.tolist())
+            if bad.any():
+                viol.append({"key": sampling_key(cfg, d, base),
+                             "what": f"wave vectors of RandMeth({name}{kw}, dim={dim}, mode_no={N}) are not distributed as the model's spectral density: "
+                                     f"seed-averaged conditional correlation differs from model.correlation by {np.round(d, 3).tolist()} at lags "
+                                     f"{REL_LAGS.tolist()} x len_scale (z = {np.round(z, 1).tolist()}, {M} seeds)",
+                             "case": dict(model=repr(model), mode_no=N, seeds=M, lags_rel=REL_LAGS.tolist(), diff=d.tolist(), z=z.tolist())})
+    return ev, viol
+
+
 def search(ctx, deep=False):
     import gstools as gs
     rng = np.random.RandomState(ctx.seed + 1)
@@ -246,7 +346,12 @@ def search(ctx, deep=False):
                 # variance of the conditional covariance shrinks like 1/N: measure the spread of single-seed spatial estimates
                 errs.append(np.var(vals[:, 0] * vals[:, 1]))
             ev += 800
-    return {"evaluations": ev, "violations": viol[:6],
-            "summary": f"seed ensembles ({M} seeds per configuration, {len(configs)} configurations incl. anisotropic/rotated models, nugget, one MCMC-sampled model "
+    ev_s, v_s = sampling_search(ctx, deep)
+    ev += ev_s
+    viol = v_s + viol
+    return {"evaluations": ev, "violations": viol[:40],
+            "summary": f"spectral-sampling test ({ev_s} generators: seed-averaged conditional covariance (var/N) sum cos<k_j,h> against model.correlation, "
+                       "6 sigma and 2 % of the variance; 17 classes x dim 1-3 x mode_no 64/1000 in thorough, a rotating subset in quick); "
+                       f"seed ensembles ({M} seeds per configuration, {len(configs)} configurations incl. anisotropic/rotated models, nugget, one MCMC-sampled model "
                        "in quick / all in thorough): mean, pointwise variance and lag covariances against model.covariance at a 6-sigma threshold; "
                        "Fourier ensembles against the spectral Riemann sum and that sum against the model (5 % of var)"}
